@@ -41,6 +41,14 @@ HShapes == {
   <<"deep-arr-50", Deep("arr", 50)>>, <<"deep-obj-50", Deep("obj", 50)>>, <<"deep-arr-300", Deep("arr", 300)>>, <<"deep-arr-301", Deep("arr", 301)>>,
   <<"deep-obj-301", Deep("obj", 301)>>, <<"deep-arr-10000", Deep("arr", 10000)>>, <<"deep-obj-10000", Deep("obj", 10000)>> }
 
+\* chains: nesting along ALTERNATING item-valued terms, each node in one style (a decoder that visits a sub-document once per
+\* role it could play -- object and link, item and collection -- doubles its work per level: exponential in a 2 kB input)
+Chain(a, b, style, n) == [j |-> "chain", a |-> a, b |-> b, style |-> style, n |-> n]
+ChainStyles == {"typed", "typeless", "href", "link"}
+ChainTermsQuick == {"object", "url", "preview", "attachment", "tag", "items", "replies", "first"}
+ChainTermsAll == ChainTermsQuick \cup {"orderedItems", "actor", "inReplyTo", "icon", "oneOf", "describes", "subject", "partOf", "instrument"}
+ChainDepth == 60
+
 TermsOf(g) == Terms(Props(g)) \cup {t \o "Map" : t \in {"name", "summary", "content"}} \cup {"@context", "zzz-unknown"}
 BaseMembers(g) == <<Mem("id", JStr(IdOf(g, 1))), Mem("type", JStr(DefaultType(g)))>>
 \* replace (or add) member t
@@ -97,8 +105,13 @@ CellTypes == IF Tier = "model" THEN {"Object", "Question", "Link", "OrderedColle
 Cells == UNION {{[g |-> g, t |-> t, shape |-> s[1], nest |-> n, base |-> "min"] : t \in TermsOf(g), s \in HShapes, n \in NestFor(g)} : g \in CellTypes}
          \cup UNION {{[g |-> g, t |-> t, shape |-> s, nest |-> n, base |-> "rich"] : t \in TermsOf(g), s \in RichShapes, n \in (IF Tier = "thorough" THEN Nestings ELSE {"top"})} : g \in CellTypes}
          \cup {[g |-> "top", t |-> "document", shape |-> s[1], nest |-> "top", base |-> "min"] : s \in HShapes}
+         \cup (IF Tier = "model" THEN {} ELSE
+               {[g |-> "chain", t |-> a \o "/" \o b, shape |-> st, nest |-> "top", base |-> "min"] :
+                  a \in (IF Tier = "thorough" THEN ChainTermsAll ELSE ChainTermsQuick), b \in (IF Tier = "thorough" THEN ChainTermsAll ELSE ChainTermsQuick), st \in ChainStyles})
 ShapeNode(name) == (CHOOSE s \in HShapes : s[1] = name)[2]
+SplitAt(t) == CHOOSE i \in 1..Len(t) : SubSeq(t, i, i) = "/"
 DocOf(c) == IF c.g = "top" THEN ShapeNode(c.shape)
+            ELSE IF c.g = "chain" THEN Chain(SubSeq(c.t, 1, SplitAt(c.t) - 1), SubSeq(c.t, SplitAt(c.t) + 1, Len(c.t)), c.shape, ChainDepth)
             ELSE Nest(IF c.base = "rich" THEN RichDoc(c.g, c.t, ShapeNode(c.shape)) ELSE HostileDoc(c.g, c.t, ShapeNode(c.shape)), c.nest)
 Init == cell \in Cells /\ outcome = "none" /\ follow = [f |-> "none", o |-> "none"]
 Decode == outcome = "none" /\ outcome' \in Outcomes /\ UNCHANGED <<cell, follow>>
